@@ -107,9 +107,18 @@ def Pred(name, rules, inline=False, order=(), limit=-1):
 
 
 def Prog(preds, rec=(), ann=()):
-  return {'preds': list(preds),
-          'rec': [{'members': list(m), 'depth': int(d)} for m, d in rec],
-          'ann': list(ann)}
+  """rec: (members, depth) or (members, depth, iterative, annotated_pred)."""
+  recs = []
+  ann = list(ann)
+  for r in rec:
+    members, depth = r[0], r[1]
+    iterative = bool(r[2]) if len(r) > 2 else False
+    recs.append({'members': list(members), 'depth': int(depth),
+                 'iterative': iterative})
+    if len(r) > 3 and r[3]:
+      ann.append('@Recursive(%s, %d%s);' % (
+          r[3], depth, ', iterative: true' if iterative else ''))
+  return {'preds': list(preds), 'rec': recs, 'ann': ann}
 
 
 # ---- rendering ----------------------------------------------------------------
